@@ -25,8 +25,10 @@ interactive mode, Windows-style `/` switches, key files referencing key files (a
 that are not installed (only the LANG/LC_ALL strings matter to nlmessages.c).  The vectors never contain
 code-affecting options; those come from the golden test's asflags and stay in argv.
 
-Mutations tried on scratch copies: see the builder's final report (BookKeeping() made to change PCs when
-MakeUseList, -A changing symbol lookup, CMD_QuietMode touching DefRelaxedMode, ASCMD parsed after argv).
+Mutations of the real code (selftest/b218_mutants.py, scratch copies, all compile; `./check C17 --selftest`), every one
+reported as VIOLATION by the quick tier: -s also setting DefRelaxedMode; debug bookkeeping (-g) advancing the PC of
+instructions longer than 2; -u shortening 3-byte instructions; ASCMD=@keyfile implying -relaxed; LC_ALL=de* implying
+-relaxed.  (A mutant naming the -E log like the code file loses diagnostics but not code: not C17's business.)
 """
 import json
 import os
@@ -45,6 +47,8 @@ DEFAULT_VEC = {"L": "none", "u": False, "C": False, "s": False, "I": False, "g":
                "P": False, "M": False, "h": False, "split": "none", "src": "argv", "cwd": "parent",
                "out": "default", "lang": "C", "langvar": "LANG"}
 GEN_PROGRAMS = {
+    # the predefined flag symbols show the invocation defaults (-relaxed, -supmode, -compmode, -U are code-affecting)
+    "g_flags": "\tcpu\t68000\n\tdc.b\tRELAXED+1,INSUPMODE+1,COMPMODE+1,CASESENSITIVE+1,PADDING+1,MOMPASS\n\tdc.b\t\"a\">\"A\",0\n",
     "g_func": "\tcpu\tz80\nhi\tfunction x,(x>>8)&255\nlo\tfunction x,x&255\n\tdb\thi(1234h),lo(1234h),hi(70000)\n",
     "g_struct": "\tcpu\tz80\nrec\tstruct\nfa\tds\t1\nfb\tds\t2\n\tendstruct\n\tdb\trec_fb,rec_len\n\tjp\tfwd\n\tds\t3\nfwd:\tnop\n",
     "g_warn": "\tcpu\tz80\n\tnop\n\tds\t0\n\twarning \"w\"\n\tjp\tfwd\nfwd:\tnop\n",
@@ -359,7 +363,7 @@ def main(tier):
         rep.sample({"source": s["name"], "argv": job["argv"], "env": job.get("env"), "cwd": job.get("cwd")})
     return rep.finish(
         rule="configurations = TLC-built pairwise covering array over 24 factors (report options, option source, cwd, "
-             "-o, LANG/LC_ALL) applied to golden sources (quick: 40 seed-chosen, thorough: all 201) and 5 generated "
+             "-o, LANG/LC_ALL) applied to golden sources (quick: 40 seed-chosen, thorough: all 201) and 7 generated "
              "programs, plus a repeated plain run and 2 repeated vector runs per source; distinct = distinct (source, "
              "argv, env); every evaluation compares a code file with the plain run's", exhaustive=False)
 
@@ -371,3 +375,24 @@ def replay(path):
     log("env: %s" % open(os.path.join(path, "env")).read())
     log("re-run: ./check C17 --tier %s   (VERIF_SEED=%s reproduces the same vectors)" % (v.get("tier"), v.get("seed")))
     return 0
+
+
+def selftest(tier):
+    """binding demonstration: (a) corrupted hook traces are rejected by Driver_Trace, (b) stored mutations of the
+    anchored code (selftest/b218_mutants.py, applied to scratch copies of the repository) make this check report
+    VIOLATION.  quick: 3 mutants, thorough: all of this property."""
+    import subprocess
+    import sys
+    ok = True
+    sys.path.insert(0, os.path.join(os.path.dirname(os.path.dirname(os.path.abspath(__file__))), "selftest"))
+    import b218_mutants
+    mine = [n for n in b218_mutants.MUTANTS if n.startswith("c17_")]
+    if tier == "quick":
+        mine = mine[:3]
+    for n in mine:
+        name, check, verdict = b218_mutants.run(n)
+        caught = "exit=1" in verdict
+        log("selftest: mutant %-28s %s  %s" % (name, "CAUGHT" if caught else "MISSED", verdict))
+        ok = ok and caught
+    log("selftest %s: %s" % (PID, "passed" if ok else "FAILED"))
+    return 0 if ok else 1
